@@ -35,7 +35,7 @@ ASSUMPTIONS = [
 DECIDING = ['tcpcl.session:Messenger.send_sess_term', 'tcpcl.session:ContactHandler.recv_sess_term',
             'tcpcl.session:ContactHandler._check_sess_term', 'tcpcl.session:ContactHandler.close', 'tcpcl.session:Connection.close']
 REQUIRED_OBS = ['runs', 'terminate_accepted', 'terminate_refused', 'close_requests', 'disconnects', 'transfers_in_progress_at_term',
-                'queued_not_started_at_term', 'simultaneous_terminations', 'waiter_terminations', 'waiter_closed_by_endpoint', 'agent_shutdowns']
+                'queued_not_started_at_term', 'simultaneous_terminations', 'waiter_terminations', 'waiter_closed_by_endpoint', 'agent_shutdowns', 'slow_incoming_runs']
 
 BASES = {
     'idle': dict(policy='rr', capacity=None, cfg_a={}, cfg_b={}, sends=[]),
